@@ -84,14 +84,12 @@ theorem i64_gt_u_ok : RelRow64 .gt_u i64_gt_u := by
   x64_simp
   x64_finish
 
-theorem i64_clz_illformed : Illformed i64_clz := by
+theorem i64_clz_ok : UnRow64 .clz i64_clz := by
   intro s
   obtain ⟨rax, rcx, rdx, rbx, rsi, rdi, r8, r9, r10, r11, r12, r13, r14, r15, flags, slots, stk⟩ := s
   unfold i64_clz
   x64_simp
-
-/-- the full statement for `i64.clz` is false of the emitted template (it is not even encodable: GNU as rejects it) -/
-theorem i64_clz_full_false : ¬ UnRow64 .clz i64_clz := illformed_not_un64 _ i64_clz_illformed
+  x64_finish
 
 theorem select_i32_ok : SelectRow32 select_i32 select_i32_c := by
   refine ⟨by decide, by decide, by decide, ?_⟩
